@@ -653,6 +653,24 @@ pub proof fn lemma_kill_done(o: &Allocator, m: &Allocator, n: &Allocator, d: Seq
     }
 }
 
+// instantiates the quantified invariants at one index
+pub proof fn lemma_gid_facts(a: &Allocator, id: u32)
+    requires a.wf(), a.headroom_n(2),
+    ensures
+        -(i32::MAX - 2) < a.gid(id as int) < i32::MAX - 2,
+        (id as int) < a.generations@.len() ==> zid(a.generations@[id as int]) == a.gid(id as int)
+            && (a.generations@[id as int].0 is Some ==> a.gid(id as int) != 0),
+        a.alive@.contains(id) <==> a.gid(id as int) > 0,
+        a.raised@.contains(id) ==> a.gid(id as int) <= 0,
+        a.occ(id) ==> a.cur_gen(id) == a.hw(id),
+{
+    assert(a.gid(id as int) == a.gid(id as int));
+    if (id as int) < a.generations@.len() {
+        let g = a.generations@[id as int];
+        assert(g.0 is Some ==> zid(g) != 0);
+    }
+}
+
 // under wf, an occupied index's comparison generation is its high-water generation
 //@props C02
 pub proof fn lemma_cur_gen_is_hw(a: &Allocator, i: u32)
